@@ -17,6 +17,8 @@ def run(ctx):
     jobs = make_jobs(ctx, "smr", k1, S.K1_PROGRAMS[:2] + extra_progs + [S.gen_program(ctx.rng, 1) for _ in range(n)], strat=st) + \
            make_jobs(ctx, "smr", k2, S.K2_PROGRAMS[:2] + extra_progs + [S.gen_program(ctx.rng, 2) for _ in range(n)], strat=st) + \
            make_jobs(ctx, "smr", ["dhp_k4"], S.DHP_LONG[1:], strat=[("pct", 20 if ctx.quick() else 400, 0)], extra_of=lambda v: ["--max-steps", "3000000"])
+    # a full retired block (256) of objects that are all guarded by another thread when the retiring thread detaches (below, at, above, 2 blocks)
+    jobs += make_jobs(ctx, "smr", ["dhp_k4"], ["holdn:%d,signal,await:2|await:1,retpool,detach,signal" % n for n in (255, 256, 257, 512)], strat=[("pct", 6 if ctx.quick() else 60, 0)], extra_of=lambda v: ["--max-steps", "3000000"])
     vlib.run_jobs(ctx, jobs)
     vlib.validate_histories(ctx, jobs, "SmrSafety", S.CONSTS + ['Clause = "once"'])
     ctx.impl_runs.append({"driver": "smr", "variants": k1 + k2, "strategies": st})
